@@ -59,6 +59,8 @@ extern "C" void sym_body()
     solver->parameter("solver::epsilon")   = eps;
     solver->parameter("solver::max_evals") = evals;
     if (cfgi("hist", 0) > 0 && id == "lbfgs") solver->parameter("solver::lbfgs::history") = cfgi("hist", 0);
+    // bundle solvers: bundle::max_size = 2 keeps the multiplier update in its analytic branch (no inner QP on symbolic data)
+    if (cfgi("bsize", 0) > 0) solver->parameter("solver::" + id + "::bundle::max_size") = cfgi("bsize", 0);
 
     const vector_t x0    = sym_vector("x", n);
     const auto     state = solver->minimize(f, x0, make_null_logger());
